@@ -1,6 +1,8 @@
 """C19 -- descriptions and payloads survive normalisation and transport.
 
 Implementation under test (real code from REPO/src, nothing re-implemented):
+  * for every task description that uses deprecated names: its twin (each deprecated attribute
+    replaced by the current one, converted) is verified too and must give the same result
   * TaskDescription(from_dict) / .as_dict() / .verify()  (ru.TypedDict.verify +
     TaskDescription._verify), twice, and the dict round trip before/after verify;
     the same for PilotDescription
@@ -28,9 +30,8 @@ _TABLE = None
 def table():
     global _TABLE
     if _TABLE is None:
-        full = open(os.path.join(COQ, 'Gen', 'Descr.v')).read()
-        cut = full.index('(* from src/radical/pilot/pilot_description.py *)')
-        txt, pdtxt = full[:cut], full[cut:]
+        txt = open(os.path.join(COQ, 'Gen', 'Descr.v')).read()
+        pdtxt = open(os.path.join(COQ, 'Gen', 'PDescr.v')).read()
         pat = r'^\s*\("([a-z_]+)"%string, \((F[A-Za-z]+)([^;\n]*)\)\)[;\]]'
         schema = {k: (f, rest.strip()) for k, f, rest in re.findall(pat, txt, re.M)}
         pd_schema = {k: (f, rest.strip()) for k, f, rest in re.findall(pat, pdtxt, re.M)}
@@ -170,15 +171,17 @@ class C19(Prop):
     module = 'c19'
     title = 'Descriptions and payloads survive normalisation and transport'
     props_files = ['Props/C19.v']
-    extra_targets = ['Descr/Oracle.vo', 'Gen/Descr.vo']
-    model_targets = ['Descr/Oracle.vo', 'Gen/Descr.vo']
+    extra_targets = ['Descr/Oracle.vo', 'Gen/Descr.vo', 'Gen/PDescr.vo']
+    model_targets = ['Descr/Oracle.vo', 'Gen/Descr.vo', 'Gen/PDescr.vo']
     translators = ['descr']
-    header = 'From RP Require Import Descr.Types Descr.Model Descr.Oracle Gen.Descr.'
+    header = 'From RP Require Import Descr.Types Descr.Model Descr.Oracle Gen.Descr Gen.PDescr.'
     clauses = ['idempotent', 'alias_preserved', 'mode_enforced', 'untouched_preserved', 'dict_roundtrip',
-               'slots_preserved', 'envelope_roundtrip']
+               'twin_same', 'slots_preserved', 'envelope_roundtrip']
     corr_name = ('Descr.Model(construct/as_dict/verify over Gen.Descr.td_table, pd_verify over pd_table; '
                  'slots_to_new/slots_to_old/slot_ctor; transport) vs TaskDescription/PilotDescription/ru.TypedDict, convert_slots_to_new/_old/Slot, PythonTask')
-    rule = ('corpus; one description per deprecated name alone and per mode with/without its required attributes; '
+    rule = ('corpus; for every alias block a family of descriptions giving the deprecated name alone (several values, '
+            'use_mpi given or not, two modes), each run together with its twin (deprecated names replaced by the '
+            'current ones); one description per deprecated name alone and per mode with/without its required attributes; '
             'random task descriptions (all modes incl. unknown/empty, 0-8 further attributes with mostly valid, '
             'some castable and a few invalid values, deprecated and current names in any combination, unknown keys); '
             'random pilot descriptions (resource / nodes / cores / gpus / backup_nodes combinations + further attributes); '
@@ -328,6 +331,29 @@ class C19(Prop):
         rng.shuffle(items)
         return {'kind': 'pd', 'd': dict(items)}
 
+    @staticmethod
+    def twin_input(d):
+        """The twin of a task description: every deprecated attribute is taken out and, if it
+        was set, its replacement gets the (converted) value.  None if the description uses no
+        deprecated name, or gives one a value that is not of its schema type (then the
+        conversion is the business of the cast, not of the alias)."""
+        T = table()
+        exact = {'TInt': int, 'TStr': str, 'TFloat': float, 'TBool': bool}
+        tw = dict(d)
+        used = False
+        for src, dst, conv, rf in T['aliases']:
+            if src not in d:
+                continue
+            used = True
+            v = tw.pop(src)
+            if v is None:
+                continue
+            if type(v) is not exact.get(T['schema'][src][1]):
+                return None
+            if v:
+                tw[dst] = float(v) if conv == 'CFloat' else v
+        return tw if used else None
+
     KINDS_OLD = ['ints', 'dicts', 'pairs', 'ros', 'lists']
 
     def _res(self, rng, kind, n):
@@ -387,6 +413,14 @@ class C19(Prop):
             v = sample.get(schema[src][1], 'W')
             yield {'kind': 'td', 'd': {'executable': '/bin/true', src: v}}
             yield {'kind': 'td', 'd': {src: v, 'executable': '/bin/true', dst: sample.get(schema[dst][1], 'Z')}}
+        # twins, systematically: every deprecated name alone with several values, with the
+        # derived flag given or not, and in other modes
+        more = {'TStr': ['OpenMP', 'master.0001'], 'TInt': [1, 2, 4, 0], 'TFloat': [0.5, 2.0], 'TBool': [True, False]}
+        for src, dst, conv, rf in aliases:
+            for v in more.get(schema[src][1], []):
+                yield {'kind': 'td', 'd': {'executable': '/bin/true', src: v}}
+                yield {'kind': 'td', 'd': {'executable': '/bin/true', src: v, 'use_mpi': False}}
+                yield {'kind': 'td', 'd': {'mode': 'task.shell', 'command': 'date', src: v, 'ranks': 2}}
         # every mode, required attributes absent / present / forbidden present
         for ms, cs in rules:
             for m in ms:
@@ -436,6 +470,14 @@ class C19(Prop):
         td = TD(from_dict=copy.deepcopy(case['d']))
         obs = {'c': tag_descr(td._data)}
         obs['rt'] = tag_descr(TD(from_dict=td.as_dict())._data)
+        tw = self.twin_input(case['d']) if case['kind'] == 'td' else None
+        if tw is not None:
+            twd = TD(from_dict=copy.deepcopy(tw))
+            try:
+                twd.verify()
+                obs['twin'] = {'d': tw, 'v': tag_descr(twd._data)}
+            except Exception as e:
+                obs['twin'] = {'d': tw, 'v': {'exc': exc_name(e)}}
         try:
             ret = td.verify()
             assert ret is td
@@ -631,8 +673,17 @@ class C19(Prop):
                 v2 = '(Some (inl %s))' % errname(obs['v2']['exc']) if isinstance(obs['v2'], dict) \
                     else '(Some (inr %s))' % ref(obs['v2'])
                 rtv = '(Some %s)' % ref(obs['rtv'])
-            return '(%sc19_%s_row %s_table %s (mkTdObs %s %s %s %s %s))' % (
-                ''.join(lets), case['kind'], case['kind'], x, c, rt, v1, v2, rtv)
+            twx, tw = 'None', 'None'
+            if case['kind'] == 'td':
+                t = self.twin_input(case['d'])
+                if (t is None) != ('twin' not in obs):
+                    raise RuntimeError('twin missing from the observation')
+                if t is not None:
+                    twx = '(Some %s)' % coq_descr(tag_descr(t))
+                    tv = obs['twin']['v']
+                    tw = '(Some (inl %s))' % errname(tv['exc']) if isinstance(tv, dict) else '(Some (inr %s))' % ref(tv)
+            return '(%sc19_%s_row %s_table %s (mkTdObs %s %s %s %s %s %s %s))' % (
+                ''.join(lets), case['kind'], case['kind'], x, c, rt, v1, v2, rtv, twx, tw)
         if case['kind'] == 'slots':
             st = []
             for s in obs['stages']:
@@ -668,6 +719,14 @@ class C19(Prop):
         return 'transport_id %s %s %s' % (L.boolean(callable(FUNCS[case['func']])),
                                           L.lst([coq_atom(tag_atom(a)) for a in case['args']]), self._coq_kw(kw))
 
+    def describe(self, case):
+        if case['kind'] == 'td':
+            t = self.twin_input(case['d'])
+            if t is not None:
+                return dict(case, twin=t, note='twin_same compares verify(d) with verify(twin): deprecated names '
+                                               'replaced by the current ones')
+        return case
+
     # ------------------------------------------------------------------ meta
     def nontrivial(self, case, obs):
         if case['kind'] in ('td', 'pd'):
@@ -691,6 +750,15 @@ class C19(Prop):
                         if case['d'].get(src) not in (None, '', False) and v.get(src, ['n']) not in falsy:
                             lost.append(src)
                 return '%s:TaskDescription._verify:%s' % (clause, '+'.join(lost[:1]) or 'value-differs')
+            if clause == 'twin_same' and 'twin' in obs:
+                a, b = obs['v1'], obs['twin']['v']
+                if isinstance(a, dict) or isinstance(b, dict):
+                    diff = ['outcome']
+                else:
+                    srcs = {x[0] for x in T['aliases']}
+                    bd = dict((k, x) for k, x in b)
+                    diff = [k for k, x in a if k not in srcs and bd.get(k) != x] or ['deprecated-name-still-set']
+                return '%s:TaskDescription._verify:%s' % (clause, '+'.join(diff[:3]))
             return '%s:TaskDescription.verify' % clause
         if case['kind'] == 'slots':
             stages = obs['stages']
